@@ -258,6 +258,7 @@ def controller(rfd, sems, sched, ctl_w):
     burst = list((sched or {}).get('burst', []))
     hold_done = False
     pool_gone = False
+    armed = False
     hold_quiet = (sched or {}).get('hold_ms', 250) / 1000.0
     end = False
     while not end:
@@ -272,9 +273,11 @@ def controller(rfd, sems, sched, ctl_w):
                 rec, buf = buf[:16], buf[16:]
                 tag, i, pid = chr(rec[0]), int(rec[1:8]), int(rec[8:15])
                 events.append((tag, i, pid))
-                if tag == 'X':
+                if tag == 'N':
+                    armed = True          # the instrumented stream starts with the consumer's first next()
+                if tag == 'X' and armed:
                     pool_gone = True
-                if tag == 'S' and not pool_gone and sems is not None and i < len(sems):
+                if tag == 'S' and armed and not pool_gone and sems is not None and i < len(sems):
                     started.append(i)
                 if tag == 'Z':
                     end = True
@@ -386,6 +389,15 @@ def run_case(case):
         pre = case.get('pre_counts')
         if pre:
             P.el_processed, P.el_yielded = pre
+        prior = case.get('prior_n')
+        if prior:
+            # an earlier, completely consumed stream of the same stage (uninstrumented source)
+            saved = SEMS
+            SEMS = None
+            for _ in P(iter(range(prior)), **kwargs):
+                pass
+            SEMS = saved
+            res['prior_info'] = (P.pipe_info().processed, P.pipe_info().yielded)
         pe = {i for i, t in enumerate(table) if t[0] == 'pe'}
         src = Src(n, case.get('tail'), pe)
         ch0 = children((cpid,))
